@@ -5,30 +5,31 @@ package checks
 
 import (
 	"fmt"
+	"regexp"
 	"strings"
 
 	"verif/harness/core"
 )
 
 type hNode struct {
-	name     string // "" = text, "#comment" = comment
-	text     string
-	attrs    []hAttr
-	kids     []*hNode
-	omitEnd  bool
+	name      string // "" = text, "#comment" = comment
+	text      string
+	attrs     []hAttr
+	kids      []*hNode
+	omitEnd   bool
 	omitStart bool
 }
 
 type htmlGen struct {
-	r        *core.Rand
-	depth    int
-	noSpecial bool // no special comments
-	payloads bool // scripts/styles with real content
-	hostileAttrs bool
-	ids      int
-	inA      bool
-	inForm   bool
-	inLabel  bool
+	r             *core.Rand
+	depth         int
+	noSpecial     bool // no special comments
+	payloads      bool // scripts/styles with real content
+	hostileAttrs  bool
+	ids           int
+	inA           bool
+	inForm        bool
+	inLabel       bool
 	inInteractive bool
 }
 
@@ -712,7 +713,15 @@ func parentAllowsPOmit(n string) bool {
 }
 
 // genHTMLDoc produces a conforming document.
+// reAmpBeforeComment: guard html-comment-removal-joins-reference — a comment never directly follows an
+// ampersand (with or without the start of a reference name).
+var reAmpBeforeComment = regexp.MustCompile(`(&[A-Za-z0-9#]*)<!--`)
+
 func genHTMLDoc(r *core.Rand, payloads bool) string {
+	return reAmpBeforeComment.ReplaceAllString(genHTMLDocRaw(r, payloads), "$1 <!--")
+}
+
+func genHTMLDocRaw(r *core.Rand, payloads bool) string {
 	g := &htmlGen{r: r, payloads: payloads}
 	var sb strings.Builder
 	full := r.Chance(2, 3)
